@@ -29,6 +29,9 @@ pub struct ElfSpec {
     pub text_skew: usize,
     /// DT_SONAME placed after DT_STRTAB / DT_STRSZ in the dynamic section (the order is free)
     pub soname_last: bool,
+    /// the `.dynamic` SECTION ends before its DT_NULL terminator (as some strippers leave it): a
+    /// reader that walks the section sees no terminator inside it
+    pub dynamic_section_cuts_null: bool,
 }
 
 impl ElfSpec {
@@ -49,6 +52,8 @@ impl ElfSpec {
             empty_first_note: rng.chance(1, 4),
             text_skew: *rng.pick(&[0usize, 0, 0, 0, 0x40, 0x34, 0x800, 0xfff, 0xff0, 1]),
             soname_last: rng.chance(1, 3),
+            // (only used where a watchdog surrounds the reader: a reader that never ends would hang an in-process check)
+            dynamic_section_cuts_null: false,
         }
     }
 }
@@ -277,7 +282,7 @@ pub fn build(spec: &ElfSpec) -> Built {
             }
             secs.push((n_shstr, 3, 0, 0, shstr_off as u64, shstr.len() as u64, 0, 1));
             let dynstr_idx = secs.len() as u32 + 1;
-            secs.push((n_dyn, 6, 3, dyn_off as u64 + bias, dyn_off as u64, (ndyn * dynent) as u64, dynstr_idx, 8));
+            secs.push((n_dyn, 6, 3, dyn_off as u64 + bias, dyn_off as u64, ((ndyn - spec.dynamic_section_cuts_null as usize) * dynent) as u64, dynstr_idx, 8));
             secs.push((n_dynstr, 3, 2, dynstr_off as u64 + bias, dynstr_off as u64, dynstr.len() as u64, 0, 1));
             secs.push((n_data, 1, 3, data_off as u64 + bias, data_off as u64, data_len as u64, 0, 8));
             assert_eq!(secs.len(), nsec);
